@@ -807,6 +807,13 @@ def stepLine (st : St) (line : String) : St × List String :=
           if st.diverged then (st, []) else
           ({ st with mismatches := st.mismatches + 1, diverged := true },
            [s!"M {st.lineNo} case={st.caseName} model=[] real=[{lineT}]"])
+      -- a panic of the real code on an operation the reference completes is a failure of the
+      -- implementation, with this history as the failing input
+      let (st, out1) :=
+        if lineT == "r panicked" && !out1.isEmpty then
+          ({ st with oracleFails := st.oracleFails + 1 },
+           out1 ++ [s!"X {st.lineNo} case={st.caseName} oracle=panic the implementation panicked on an operation the reference model completes"])
+        else (st, out1)
       -- L0 oracle on the implementation's own results
       let (st, outS) := if tag == "r" then specOnResult st toks else (st, [])
       let out1 := out1 ++ outS
